@@ -95,8 +95,9 @@ def eqP (a b : PRec) : Bool := recEq a.basic b.basic
 noncomputable def keptP (T : List PRec) : List PRec :=
   open Classical in firstWins eqP (T.filter (fun p => decide (Winner (T.map (·.basic)) p.basic)))
 
-def cTP (K : List PRec) : Bool := decide (1 < setSize (K.flatMap (fun p => p.basic.isoforms)))
-def cGP (K : List PRec) : Bool := decide (1 < setSize (K.flatMap (fun p => p.basic.genes)))
+-- (c08x) `several_kept and ...`: a read kept on ONE record is not re-flagged (audit-2 GAP C08-1, `fix:` commit)
+def cTP (K : List PRec) : Bool := decide (1 < K.length) && decide (1 < setSize (K.flatMap (fun p => p.basic.isoforms)))
+def cGP (K : List PRec) : Bool := decide (1 < K.length) && decide (1 < setSize (K.flatMap (fun p => p.basic.genes)))
 
 /-- the record with the resolver's re-flagging applied -/
 def flagged (a b : Bool) (p : PRec) : PRec := { p with basic := flag a b p.basic }
@@ -494,18 +495,22 @@ theorem readOut_spec (S : List PRec)
       rw [hx', hy']
     have hK := keptI_map_fst _ hne hread
     obtain ⟨hmap, hfilt⟩ := keptP_spec (S.filter (ofRead r)) hTn
+    have hKlen : (keptI ((S.filter (ofRead r)).map (·.basic))).length = (keptP (S.filter (ofRead r))).length := by
+      have h := congrArg List.length hK
+      rw [← hmap] at h
+      simpa using h
     have hT : changeT (keptI ((S.filter (ofRead r)).map (·.basic))) = cTP (keptP (S.filter (ofRead r))) := by
       unfold changeT cTP
       have : (keptI ((S.filter (ofRead r)).map (·.basic))).flatMap (fun x => x.1.isoforms) =
           ((keptI ((S.filter (ofRead r)).map (·.basic))).map Prod.fst).flatMap (fun x => x.isoforms) := by
         rw [List.flatMap_map]
-      rw [this, hK, ← hmap, List.flatMap_map]
+      rw [this, hK, ← hmap, List.flatMap_map, hKlen]
     have hG : changeG (keptI ((S.filter (ofRead r)).map (·.basic))) = cGP (keptP (S.filter (ofRead r))) := by
       unfold changeG cGP
       have : (keptI ((S.filter (ofRead r)).map (·.basic))).flatMap (fun x => x.1.genes) =
           ((keptI ((S.filter (ofRead r)).map (·.basic))).map Prod.fst).flatMap (fun x => x.genes) := by
         rw [List.flatMap_map]
-      rw [this, hK, ← hmap, List.flatMap_map]
+      rw [this, hK, ← hmap, List.flatMap_map, hKlen]
     simp only [h1, if_false, readOut, h1']
     rw [filterMap_ite, hK, hT, hG, filter_comm', ← hfilt, List.filter_map]
     congr 1
@@ -591,9 +596,9 @@ theorem keptP_eraseAid (T : List PRec) : keptP (T.map PRec.eraseAid) = (keptP T)
   rfl
 
 theorem cTP_eraseAid (K : List PRec) : cTP (K.map PRec.eraseAid) = cTP K := by
-  unfold cTP; rw [List.flatMap_map]; rfl
+  unfold cTP; rw [List.flatMap_map, List.length_map]; rfl
 theorem cGP_eraseAid (K : List PRec) : cGP (K.map PRec.eraseAid) = cGP K := by
-  unfold cGP; rw [List.flatMap_map]; rfl
+  unfold cGP; rw [List.flatMap_map, List.length_map]; rfl
 
 theorem readOut_eraseAid (T : List PRec) : readOut (T.map PRec.eraseAid) = (readOut T).map PRec.eraseAid := by
   unfold readOut
@@ -629,6 +634,8 @@ theorem specRecords_eraseAid (c : Nat) (S : List PRec) :
 theorem cTP_perm {K K' : List PRec} (h : K ~ K') : cTP K = cTP K' := by
   unfold cTP
   have hm := (h.flatMap_right (fun p : PRec => p.basic.isoforms))
+  rw [h.length_eq]
+  congr 1
   rw [Bool.eq_iff_iff, decide_eq_true_eq, decide_eq_true_eq, setSize_gt_one_iff, setSize_gt_one_iff]
   constructor <;> rintro ⟨a, ha, b, hb, hab⟩
   · exact ⟨a, hm.mem_iff.mp ha, b, hm.mem_iff.mp hb, hab⟩
@@ -637,6 +644,8 @@ theorem cTP_perm {K K' : List PRec} (h : K ~ K') : cTP K = cTP K' := by
 theorem cGP_perm {K K' : List PRec} (h : K ~ K') : cGP K = cGP K' := by
   unfold cGP
   have hm := (h.flatMap_right (fun p : PRec => p.basic.genes))
+  rw [h.length_eq]
+  congr 1
   rw [Bool.eq_iff_iff, decide_eq_true_eq, decide_eq_true_eq, setSize_gt_one_iff, setSize_gt_one_iff]
   constructor <;> rintro ⟨a, ha, b, hb, hab⟩
   · exact ⟨a, hm.mem_iff.mp ha, b, hm.mem_iff.mp hb, hab⟩
